@@ -3,7 +3,7 @@
 #   1. (if a worktree is given) imports <worktree>/SEEDED into /verif/seeded/<seed-id>/
 #   2. confirms the seeded change in a fresh scratch worktree of /repo HEAD: suite passes with it, demo fails with it and
 #      passes without it
-#   3. applies the patch to /repo, runs every claimed check, reverts /repo, and records which checks fired
+#   3. scans every claimed property on that scratch worktree (HEAD + the change) and records which rules fired
 . /verif/env.sh
 id=$1; wt=$2
 dir=/verif/seeded/$id
@@ -33,18 +33,12 @@ res=$dir/confirm.txt; : > $res
   timeout 600 go test -count=1 ./... > $scratch/suite.log 2>&1; echo "suite_with_change_exit=$?" >> $res
   grep -c '^ok' $scratch/suite.log | sed 's/^/suite_ok_packages=/' >> $res
 )
+# scan every claimed property on the scratch worktree (HEAD + the seeded change, demo removed) in one load
+if grep -q patch_applies=yes $res; then
+  (cd /verif/checker && go build -o /verif/bin/ivcheck .) || exit 2
+  /verif/bin/ivcheck -p scan -repo $scratch/wt > $scratch/scan.txt 2>&1
+  python3 /verif/scan2checks.py $scratch/scan.txt $dir
+fi
 git -C /repo worktree remove --force $scratch/wt; rm -rf $scratch
 cat $res
-# run the checks against /repo with the patch applied
-if grep -q patch_applies=yes $res; then
-  git -C /repo apply $dir/patch.diff || exit 2
-  : > $dir/checks.txt
-  for p in $(jq -r '.checks[].property_id' /verif/MANIFEST.json); do
-    out=$(/verif/run.sh $p quick 2>&1); ec=$?
-    if [ $ec -ne 0 ]; then echo "== $p exit=$ec" >> $dir/checks.txt; echo "$out" | grep -v KNOWN-FINDING | grep -v '^VIOLATION' | head -6 >> $dir/checks.txt; fi
-  done
-  git -C /repo checkout -- . ; git -C /repo status --short | head -3
-  # restore evidence of the unchanged tree
-  [ -z "$NORESTORE" ] && for p in $(jq -r '.checks[].property_id' /verif/MANIFEST.json); do /verif/run.sh $p quick >/dev/null 2>&1; done
-  echo "--- checks that fired:"; cat $dir/checks.txt
-fi
+echo "--- checks that fired:"; cut -c1-300 $dir/checks.txt
